@@ -19,7 +19,9 @@ PID = "C15"
 ENTRIES = {"c15chunks": ("Modes.Entry", "entry_c15chunks"),
            "c15nm": ("Modes.Entry", "entry_c15nm"),
            "c15lru": ("Modes.Entry", "entry_c15lru"),
-           "c15modes": ("Modes.Toy", "entry_c15modes")}
+           "c15modes": ("Modes.Toy", "entry_c15modes"),
+           "c15lex": ("Modes.Lex", "entry_c15lex"),
+           "c15lexchunks": ("Modes.Lex", "entry_c15lexchunks")}
 TRUSTED = [
     "modelled, not verified: brush-interactive completeness.rs (needs_more_input_locked, ends_with_line_continuation), "
     "minimal/input_backend.rs (read_program_from), interactive_shell.rs (execute_line line offset), interp.rs (Program::execute), "
@@ -680,6 +682,73 @@ def check_toy_modes(ctx, workdir, res, want_classes):
     res["dist_modes"]["toy_programs"] = len(texts)
 
 
+
+# --------------------------------------------------------------------------------------------
+# the lexical fragment (quotes, escapes, continuations, comments): Modes/Lex.v vs the real parser
+
+LEX_ALPHABET = ["a", "b", " ", "\n", "'", '"', "\\", "#"]
+
+
+def check_lex(ctx, workdir, res):
+    rng = ctx.rng
+    maxlen = 4 if ctx.quick else 6
+    texts = [""]
+    for n in range(1, maxlen + 1):
+        texts += ["".join(x) for x in itertools.product(LEX_ALPHABET, repeat=n)]
+    exhaustive = len(texts)
+    for _ in range(2500 if ctx.quick else 30000):
+        n = rng.randrange(maxlen + 1, 24)
+        texts.append("".join(rng.choice(LEX_ALPHABET + ["\t", "\\\n", "# c\n", "'a b'", '"a\\"b"']) for _ in range(n)))
+    texts = sorted(set(texts))
+    code = ctx.impl("c15cls", [["e", t] for t in texts], timeout=IMPL_TIMEOUT)
+    model = ctx.model("c15lex", [[t] for t in texts])
+    res["model_cases"]["c15lex"] = [[t] for t in texts]
+    res["model_out"]["c15lex"] = model
+    res["evaluations"] += len(texts)
+    dist = {}
+    needs = {}
+    for t, cl, ml in zip(texts, code, model):
+        c = core.dec_line(cl)[0] if not cl.startswith(("PANIC", "DIED", "TIMEOUT")) else cl
+        m = core.dec_line(ml)
+        dist[c] = dist.get(c, 0) + 1
+        needs[t] = m[1:2] == ["1"]
+        if m[:1] != [c]:
+            res["model_mismatches"].append({"what": "verdict of the real parser differs from the scanner model on the lexical fragment",
+                                            "text": t, "code": c, "model": m})
+    res["dist_lex"] = {"texts": len(texts), "exhaustive_up_to_length": maxlen, "exhaustive": exhaustive, "verdicts": dist,
+                       "needs_more": sum(1 for v in needs.values() if v)}
+    # the real front-end on multi-line fragment texts vs the model's chunking with the fragment's decision
+    multi = [t for t in texts if t.count("\n") >= 2 and len(t) >= 5]
+    multi = rng.sample(multi, min(len(multi), 1500 if ctx.quick else 12000))
+    impl_chunks = ctx.impl("c15chunks", [["e", t] for t in multi], timeout=IMPL_TIMEOUT)
+    mcases = [[str(len(lines_of(t)))] + lines_of(t) for t in multi]
+    mchunks = ctx.model("c15lexchunks", mcases)
+    res["model_cases"]["c15lexchunks"] = mcases
+    res["model_out"]["c15lexchunks"] = mchunks
+    res["evaluations"] += len(multi)
+    for t, il, ml in zip(multi, impl_chunks, mchunks):
+        c = core.dec_line(il) if not il.startswith(("PANIC", "DIED", "TIMEOUT")) else [il]
+        if c != core.dec_line(ml):
+            res["model_mismatches"].append({"what": "chunks of the real front-end differ from the fragment model",
+                                            "text": t, "code": c, "model": core.dec_line(ml)})
+        if len(c) > 1:
+            res["nontrivial"].add("lex:" + t)
+    res["dist_lex"]["chunked_texts"] = len(multi)
+    # validation of the grammar (through the proved decision) against bash -n, on texts that do not
+    # end in a continuation or a lone backslash (bash -n accepts both at end of file)
+    cand = [t for t in texts if not t.endswith("\\\n") and not t.endswith("\\") and len(t) >= 3]
+    cand = rng.sample(cand, min(len(cand), 250 if ctx.quick else 4000))
+    with ThreadPoolExecutor(8) as ex:
+        bs = list(ex.map(lambda t: bash_n(t, workdir), cand))
+    bad = 0
+    for t, b in zip(cand, bs):
+        res["evaluations"] += 1
+        if (b == "incomplete") != needs[t]:
+            bad += 1
+            res["notes"].append("lexical grammar vs bash -n: %r decision %s bash %s" % (t, needs[t], b))
+    res["spec_vs_bash"]["lex_grammar_vs_bash_n"] = len(cand)
+    res["spec_vs_bash"]["lex_grammar_disagrees_with_bash_n"] = bad
+
 # --------------------------------------------------------------------------------------------
 # purity
 
@@ -830,7 +899,7 @@ def new_res():
 
 def crosscheck(ctx, res):
     total = agree = 0
-    for entry in ("c15lru", "c15nm", "c15chunks", "c15modes"):
+    for entry in ("c15lru", "c15nm", "c15chunks", "c15modes", "c15lex", "c15lexchunks"):
         cases, out = res["model_cases"].get(entry, []), res["model_out"].get(entry, [])
         if not cases:
             continue
@@ -866,7 +935,7 @@ def finish(ctx, res, progs):
                 "probe (distinct by text), or a (api, text) pair whose parse result depends on the options (distinct by pair)",
         "samples": [{"program": prog_text(p[0], p[2])} for p in progs[6:9]] + [{"program": prog_text(progs[0][0])}],
         "distribution": {"constructs": kinds, "parser_verdicts": res["dist_class"], "prefix_decisions": res["dist_prefix"],
-                         "modes": res["dist_modes"], "purity": res.get("dist_purity"), "lru": res.get("dist_lru")},
+                         "modes": res["dist_modes"], "purity": res.get("dist_purity"), "lru": res.get("dist_lru"), "lexical_fragment": res.get("dist_lex")},
         "model_mismatches": res["model_mismatches"],
         "spec_violations": res["spec_violations"],
         "spec_vs_bash": res["spec_vs_bash"],
@@ -883,6 +952,7 @@ def run(ctx):
         check_lru(ctx, res)
         check_purity(ctx, res)
         check_regex_purity(ctx, workdir, res)
+        check_lex(ctx, workdir, res)
         texts, want = check_chunks_and_prefixes(ctx, progs, workdir, res)
         check_concat(ctx, progs, res)
         check_toy_modes(ctx, workdir, res, want)
